@@ -56,6 +56,11 @@ pub mod mm {
     /// Returns the approximate square root of `x`.
     #[inline]
     pub fn sqrt(x: f32) -> f32 {
+        // As in `recip_sqrt`: the underlying bit trick presumes a normal
+        // number; bring subnormal ones into range first
+        if x > 0.0 && x < f32::MIN_POSITIVE {
+            return sqrt(16_777_216.0 * x) / 4096.0;
+        }
         let y = mm::sqrt(x);
         // One round of Newton's method
         0.5 * (y + (x / y))
